@@ -740,7 +740,8 @@ class Expression:
         try:
             return self._hash_value
         except AttributeError:
-            self._hash_value: int = self.get_hash()
+            # (a frozen dataclass subclass may end up here: hash=False)
+            object.__setattr__(self, "_hash_value", self.get_hash())
             return self._hash_value
 
     def __getstate__(self) -> tuple[Any]:
